@@ -305,6 +305,99 @@ def euler_identities(rep, F, E, tag):
     R.guard(body)
 
 
+# ---------------------------------------------------------------------------
+# reflection symmetry of the power cone in its third coordinate
+# ---------------------------------------------------------------------------
+from engine.linform import P_neg, P_key
+
+TRANS = ('logsafe', 'exp', 'powf', 'ln', 'log', 'sqrt', 'abs', '_newton_raphson_powcone', 'powi')
+
+
+def _sem_atoms(prefix, flip, holder):
+    """atoms for coordinates (prefix0..2, the third negated when `flip`) and *semantic* opaque atoms: a transcendental
+    call is identified by the polynomials of its arguments, not by its source text, so that f(s2) and f(-s2) differ
+    unless f's argument is even in s2; abs(p) is identified up to the sign of p"""
+    def atoms(k, s_):
+        m = _re.fullmatch(r'arg2\[(\d)_usize\]', k)
+        if m:
+            a = P_atom('%s%s' % (prefix, m.group(1)))
+            return ('S', P_neg(a) if (flip and m.group(1) == '2') else a)
+        if k == 'self.α':
+            return ('S', P_atom('alpha'))
+        if s_[0] == 'call':
+            nm = last_seg(s_[1].split('#')[0])
+            if nm in TRANS:
+                I_ = holder['I']
+                vals = [I_.ev(holder.get('st', {}), a_) for a_ in s_[2]]
+                if all(v is not None and v[0] == 'S' for v in vals):
+                    keys = [P_key(v[1]) for v in vals]
+                    if nm == 'abs':
+                        keys = [min(P_key(vals[0][1]), P_key(P_neg(vals[0][1])), key=str)]
+                    return ('S', P_atom((nm,) + tuple(keys)))
+                return None
+        return None
+    return atoms
+
+
+def _eval_both(F, E, f, prefix, want, local_stores=False):
+    out = []
+    for flip in (False, True):
+        holder = {}
+        reg = {}
+        I = LFSplit(F, E, f, _sem_atoms(prefix, flip, holder), reg)
+        holder['I'] = I
+        res = []
+        for val, ret, st in I.run({}, local_stores=local_stores):
+            res.append((val, ret, {k: st.get(k) for k in want(st)}, I.ev(st, f.sym_local(0))))
+        out.append((res, reg))
+    return out
+
+
+def reflection_symmetry(rep, F, E, tag, rid='C14.R5'):
+    """K_pow = {x^a y^(1-a) >= |z|} and its dual are invariant under z -> -z: membership tests and barriers are even in
+    the third coordinate, gradient components 0,1 even and 2 odd, Hessian entries (0,2),(1,2) odd and the rest even."""
+    R = rep.rule(rid, 'power cone: membership tests and barrier are even in the third coordinate; gradient / Hessian have the matching parities')
+
+    def body():
+        K = 'PowerCone'
+        for nm in ('is_primal_feasible', 'is_dual_feasible'):
+            f = F.one(name=nm, adt=K)
+            (a, _), (b, _) = _eval_both(F, E, f, 'u', lambda st: [k for k in st if k == 'var:res'])
+            ra = [x[2].get('var:res') for x in a if x[2].get('var:res') is not None]
+            rb = [x[2].get('var:res') for x in b if x[2].get('var:res') is not None]
+            ok = bool(ra) and len(ra) == len(rb) and all(x is not None and y is not None and x[0] == 'S' and x == y for x, y in zip(ra, rb))
+            R.check(ok, 'even|%s%s' % (nm, tag),
+                    'PowerCone::%s: the tested quantity changes under s3 -> -s3 (%s vs %s): the cone is symmetric in its third coordinate, '
+                    'a test that is not even rejects or accepts points with negative s3 wrongly' % (
+                        nm, P_fmt(ra[0][1])[:120] if ra and ra[0] and ra[0][0] == 'S' else ra[:1], P_fmt(rb[0][1])[:120] if rb and rb[0] and rb[0][0] == 'S' else rb[:1]), f.loc())
+        f = F.one(name='barrier_dual', adt=K)
+        (a, _), (b, _) = _eval_both(F, E, f, 'u', lambda st: [])
+        ra, rb = [x[3] for x in a], [x[3] for x in b]
+        ok = bool(ra) and all(x is not None and x[0] == 'S' and x == y for x, y in zip(ra, rb))
+        R.check(ok, 'even|barrier_dual' + tag, 'PowerCone::barrier_dual is not even in z3', f.loc())
+        f = F.one(name='update_dual_grad_H', adt=K)
+        want = lambda st: [k for k in st if _re.fullmatch(r'self\.grad\[\d_usize\]', k) or k.startswith('index_mut(self.H_dual, tuple(')]
+        (a, _), (b, _) = _eval_both(F, E, f, 'u', want)
+        if len(a) == 1 and len(b) == 1:
+            sa, sb = a[0][2], b[0][2]
+            n = 0
+            for k in sorted(sa):
+                x, y = sa.get(k), sb.get(k)
+                if x is None or y is None or x[0] != 'S' or y[0] != 'S':
+                    R.bad('parity|%s%s' % (k[-24:], tag), 'could not evaluate %s' % k, f.loc())
+                    continue
+                idx = [int(t) for t in _re.findall(r'(\d)_usize', k)]
+                odd = (idx == [2]) or (len(idx) == 2 and (idx.count(2) == 1))
+                n += 1
+                R.check(y[1] == (P_neg(x[1]) if odd else x[1]), 'parity|%s%s' % (k[-24:], tag),
+                        'PowerCone::update_dual_grad_H: %s should be %s in z3' % (k, 'odd' if odd else 'even'), f.loc())
+            R.check(n == 9, 'parity-count' + tag, '%d of 9 gradient / Hessian entries analysed' % n, f.loc())
+        else:
+            R.bad('parity-paths' + tag, 'update_dual_grad_H has %d paths' % len(a), f.loc())
+
+    R.guard(body)
+
+
 def run(ctx, rep, tier):
     for cfg in (CONFIGS_THOROUGH if tier == 'thorough' else CONFIGS):
         F = ctx.facts(cfg)
@@ -314,3 +407,4 @@ def run(ctx, rep, tier):
         scaling_fallback(rep, F, tag)
         update_order(rep, F, E, tag)
         euler_identities(rep, F, E, tag)
+        reflection_symmetry(rep, F, E, tag)
